@@ -153,3 +153,66 @@ class Forward:
 
     def tags(self, expr: ast.AST) -> Tags:
         return self.evaluate(expr, self.at(expr))
+
+
+def possibly_unbound(func: ast.AST) -> list[tuple[ast.Name, str]]:
+    """Local names read on some path before any assignment (definite-assignment analysis).
+
+    Only names that are assigned somewhere in the function (and are neither parameters, globals
+    nor nonlocals) are considered; comprehension variables are ignored.
+    """
+    from gv.astutil import param_names
+    from gv.astutil import stmts_of
+    from gv.cfg import cfg_of
+
+    cfg = cfg_of(func)
+    assigned: set[str] = set()
+    skip: set[str] = set(param_names(func))
+    for s in stmts_of(func):
+        if isinstance(s, (ast.Global, ast.Nonlocal)):
+            skip |= set(s.names)
+        for n in ast.walk(s) if not isinstance(s, (ast.FunctionDef, ast.AsyncFunctionDef, ast.ClassDef)) else []:
+            if isinstance(n, ast.Name) and isinstance(n.ctx, ast.Store):
+                assigned.add(n.id)
+        if isinstance(s, (ast.FunctionDef, ast.AsyncFunctionDef, ast.ClassDef)):
+            assigned.add(s.name)
+        if isinstance(s, (ast.Import, ast.ImportFrom)):
+            for a in s.names:
+                assigned.add((a.asname or a.name).split(".")[0])
+    local = assigned - skip
+    comp_vars = {n.id for c in ast.walk(func) if isinstance(c, (ast.ListComp, ast.SetComp, ast.DictComp, ast.GeneratorExp)) for g in c.generators for n in ast.walk(g.target) if isinstance(n, ast.Name)}
+    local -= comp_vars
+    DEF, UNDEF = frozenset({"def"}), frozenset({"undef"})
+
+    def ev(e, env):
+        return DEF
+
+    fw = Forward(cfg, ev, init={n: UNDEF for n in local}, loop_elem=lambda it, env: DEF, unpack=lambda v, env, i, n: DEF, aug=lambda node, env: DEF)
+    out = []
+    for n in cfg.stmt_nodes():
+        node = cfg.ast[n]
+        env = fw.env_in.get(n, {})
+        kind = cfg.kind[n]
+        roots = []
+        if kind == "stmt" and node is not None and not isinstance(node, (ast.FunctionDef, ast.AsyncFunctionDef, ast.ClassDef, ast.Try)):
+            if isinstance(node, ast.Assign):
+                roots = [node.value]
+            elif isinstance(node, ast.AugAssign):
+                roots = [node.value, node.target]
+            elif isinstance(node, ast.AnnAssign):
+                roots = [node.value] if node.value is not None else []
+            else:
+                roots = [node]
+        elif kind == "test":
+            roots = [node.test]
+        elif kind == "loop":
+            roots = [node.iter]
+        elif kind == "with":
+            roots = [it.context_expr for it in node.items]
+        for r in roots:
+            for x in ast.walk(r):
+                if isinstance(x, (ast.Lambda, ast.ListComp, ast.SetComp, ast.DictComp, ast.GeneratorExp)):
+                    continue
+                if isinstance(x, ast.Name) and isinstance(x.ctx, ast.Load) and x.id in local and "undef" in env.get(x.id, DEF):
+                    out.append((x, x.id))
+    return out
